@@ -1228,6 +1228,9 @@ func GenerateWrappers(pkg *packages.Package, cs *ContractSet) (string, []string)
 			}
 			j := strings.LastIndex(k, ".")
 			ifaceName := strings.TrimPrefix(k[:j], g.pkg.Name+".")
+			if ic.FuncType != "" {
+				ifaceName = strings.ReplaceAll(ic.FuncType, g.pkg.Name+".", "")
+			}
 			pl := []string{"c_self " + ifaceName}
 			for _, d := range append(append([]string{}, iparams...), iresults...) {
 				pl = append(pl, "c_"+d)
